@@ -16,7 +16,7 @@ META = {
     ),
     "anchors": ["abelian_core._fuse_blocks_via_insert", "abelian_core._fuse_blocks_via_concat", "abelian_core.AbelianArray.to_dense", "abelian_core.AbelianArray.fill_missing_blocks", "abelian_core._tensordot_via_fused", "linalg._get_qr_fn", "utils.get_random_fill_fn"],
     "floors": {
-        "quick": {"evaluations": 20000, "distinct_nontrivial": 3000, "tables": {"dtype/float32": 3000, "dtype/complex64": 3000, "dtype/complex128": 3000, "zero-creation/fuse-insert": 300, "zero-creation/fuse-concat": 300, "zero-creation/to_dense": 300, "zero-creation/fill_missing_blocks": 300, "zero-creation/fused-contraction": 200, "twin-compared": 8000, "mixed-contraction/terms>=32": 400}},
+        "quick": {"evaluations": 20000, "distinct_nontrivial": 3000, "tables": {"dtype/float32": 3000, "dtype/complex64": 3000, "dtype/complex128": 3000, "zero-creation/fuse-insert": 300, "zero-creation/fuse-concat": 300, "zero-creation/to_dense": 300, "zero-creation/fill_missing_blocks": 300, "zero-creation/fused-contraction": 200, "twin-compared": 8000, "mixed-contraction/terms>=32": 400, "twin-compared/mixed-blocks": 10000}},
         "thorough": {"evaluations": 500000, "distinct_nontrivial": 60000},
     },
     "wall": {"quick": 100, "thorough": 1700},
@@ -234,6 +234,82 @@ def dedicated(ctx, rng):
             ctx.nontrivial(("dedicated", name, dt, struct_sig(x)))
 
 
+def mixed_blocks(ctx, rng):
+    """ONE array whose blocks have 2-4 different element types (narrow or wide first): every
+    relocating operation must keep every number exactly (compared with the complex128 twin),
+    and nothing may discard an imaginary part."""
+    sr = ctx.sr
+    sym = rng.choice(gen.SYMS5)
+    ferm = rng.random() < 0.4
+    idx = [gen.rand_index(sr, rng, sym, maxc=2, maxd=2, p_single=0.0, minc=2) for _ in range(rng.choice([3, 4]))]
+    x = gen.make_array(sr, rng, sym, idx, fermionic=ferm, values=gen.Values(rng, "unique"), sparsity=rng.choice([0.0, 0.3, 0.5]), nphase=1, exotic=False)
+    if len(x.blocks) < 2:
+        return
+    nb, dts = gen.mix_block_dtypes(rng, dict(x.blocks))
+    for k_, v_ in nb.items():
+        x.blocks[k_] = v_
+    anyc = any(np.dtype(d).kind == "c" for d in dts)
+    xt = deep_twin(x, dtype="complex128" if anyc else "float64")
+    nd = x.ndim
+    g = rng.sample(range(nd), 2)
+    rest = [i for i in range(nd) if i not in g]
+    steps = [
+        ("fuse", lambda a: a.fuse(tuple(g), tuple(rest)), True),
+        ("fuse-single", lambda a: a.fuse((g[0],)), True),
+        ("fuse-unfuse", lambda a: a.fuse(tuple(g)).unfuse_all(), True),
+        ("to_dense", lambda a: a.to_dense(), True),
+        ("reshape", lambda a: a.reshape((a.shape[0] * a.shape[1],) + tuple(a.shape[2:])), True),
+        ("transpose", lambda a: a.transpose(tuple(reversed(range(nd)))), True),
+        ("conj", lambda a: a.conj(), True),
+        ("scalar-mul", lambda a: a * 2.0, True),
+        ("add-self", lambda a: a + a, True),
+        ("fused-contraction", lambda a: sr.tensordot(a, a.conj(), axes=(g, g), mode="fused", preserve_array=True), False),
+        ("blockwise-contraction", lambda a: sr.tensordot(a, a.conj(), axes=(g, g), mode="blockwise", preserve_array=True), False),
+        ("norm", lambda a: a.norm(), False),
+    ]
+    if not ferm:
+        steps.append(("fuse-concat", lambda a: a.fuse(tuple(g), tuple(rest), mode="concat"), True))
+
+    def fill(a):
+        b = a.copy()
+        b.fill_missing_blocks()
+        return b
+
+    steps.append(("fill_missing_blocks", fill, True))
+    lo = "float32" if any(d in ("float32", "complex64") for d in dts) else "float64"
+    for name, f, exact in steps:
+        wit = {"op": name, "block_dtypes": dts, "x": describe(x)}
+        o = ctx.call(f, x)
+        ctx.evaluated()
+        ctx.count("dtype", "mixed-blocks:" + "+".join(dts))
+        ctx.count("op", "mixed-blocks:" + name)
+        if not o.ok:
+            if isinstance(o.exc, Warning):
+                ctx.violation(f"complex-warning:{name}", f"{name} on an array with blocks of types {dts} emitted {o.exc!r} (imaginary part discarded)", wit)
+            else:
+                ctx.count("raises", f"mixed-blocks:{name}:{o.excname}")
+            continue
+        ot = ctx.call(f, xt)
+        if not ot.ok:
+            continue
+        r, rt = o.value, ot.value
+        if is_array(r):
+            va, vb = embed(r), embed(rt, r.indices)
+        else:
+            va, vb = np.asarray(r), np.asarray(rt)
+        if va.shape != vb.shape:
+            ctx.violation(f"mixed-blocks-structure:{name}", f"{name}: result shape {va.shape} vs {vb.shape} on the double-precision twin", wit)
+            continue
+        scale = max(1.0, float(np.abs(vb).max(initial=0)))
+        ok = np.array_equal(va, vb) if exact else np.allclose(va, vb, atol=EPS[lo] * scale * 200, rtol=0)
+        ctx.count("twin-compared", "mixed-blocks")
+        if not ok:
+            ctx.violation(f"precision-lost:{name}", f"{name} on an array with blocks of types {dts} differs from the same operation on its {'complex128' if anyc else 'float64'} twin by {float(np.abs(va - vb).max())} ({'values must be kept exactly' if exact else 'beyond single-precision round-off'})", wit)
+            continue
+        if len(dts) >= 3 or set(dts) == {"float64", "complex64"}:
+            ctx.nontrivial(("mixed-blocks", name, tuple(dts), struct_sig(x)))
+
+
 def mixed_contraction(ctx, rng):
     """Contractions of two homogeneous operands of DIFFERENT element types (real x complex,
     single x double), over few or very many aligned sector pairs per output block, in every
@@ -317,5 +393,7 @@ def run(ctx):
         ctx.run_case(run_program, ctx, rng)
     for _, rng in ctx.cases("dedicated", ctx.budget(21000, 400000)):
         ctx.run_case(dedicated, ctx, rng)
+    for _, rng in ctx.cases("mixed-blocks", ctx.budget(5000, 100000)):
+        ctx.run_case(mixed_blocks, ctx, rng)
     for _, rng in ctx.cases("mixed-contraction", ctx.budget(6000, 120000)):
         ctx.run_case(mixed_contraction, ctx, rng)
